@@ -113,7 +113,7 @@ func (s *c13State) audit(minAge int64, final bool) {
 }
 
 func c13(run *ev.Run) int {
-	run.SetRule("workload = G goroutines x K calls each with pairwise-distinct ids over ONE handler set and ONE set of shared clients (3 protocols x 2 codecs x {identity, gzip both ways} x HTTP/1.1 + HTTP/2), kind/size/outcome drawn per call, plus bidi streams with a sender and a receiver goroutine; phases with GOMAXPROCS 16/4/1, random yields at the duplex call's hook points; monitors: Go race detector (reports with a connect-go frame), per-call echo oracle with the call id in payload/header/trailer/error text, retained values (messages, header maps, error text+metadata) re-hashed after later calls, buffer-pool poison + double-release table; distinct by (client config, kind, size class, outcome, phase)")
+	run.SetRule("workload = G goroutines x K calls each with pairwise-distinct ids over ONE handler set and ONE set of shared clients (3 protocols x 2 codecs x {identity, gzip both ways} x HTTP/1.1 + HTTP/2), kind/size/outcome drawn per call, plus bidi streams with a sender and a receiver goroutine; phases with GOMAXPROCS 16/4/1, random yields at the duplex call's hook points; monitors: Go race detector (reports with a connect-go frame), per-call echo oracle with the call id in payload/header/trailer/error text, retained values (messages, header maps, error text+metadata) re-hashed after later calls, buffer-pool poison + double-release tables for buffers and pooled (de)compressors (GOMAXPROCS=4 phase only: the table's mutex would hide races); distinct by (client config, kind, size class, outcome, phase)")
 	if !RaceEnabled {
 		run.Assume("WARNING: built without -race; only the behavioural monitors ran")
 	}
@@ -121,6 +121,7 @@ func c13(run *ev.Run) int {
 	st := &c13State{run: run}
 	connect.VerifSetPoolReport(func(kind string) { run.Violation("c13/pool/"+kind, "buffer pool discipline violated: "+kind, nil) })
 	defer connect.VerifSetPoolReport(nil)
+	defer connect.VerifSetPoolTable(true)
 	// The hook must not touch shared state: any mutex or atomic here would add
 	// happens-before edges between goroutines and hide races from the detector.
 	connect.VerifSetYield(func(point string) {
@@ -182,6 +183,10 @@ func c13(run *ev.Run) int {
 	for rep := 0; rep < reps; rep++ {
 		for _, procs := range []int{16, 4, 1} {
 			old := runtime.GOMAXPROCS(procs)
+			// The double-release tables of the pool hooks sit behind one mutex, which
+			// orders every pool operation of every goroutine and would hide races
+			// from the detector: they are on in one phase only (poisoning stays on).
+			connect.VerifSetPoolTable(procs == 4)
 			var wg sync.WaitGroup
 			for g := 0; g < G && os.Getenv("VERIF_C13_ONLY") != "cancel"; g++ {
 				wg.Add(1)
@@ -541,6 +546,15 @@ func (s *c13State) duplexStream(id uint64, procs, b int) {
 	}
 	c := h2[int(id)%len(h2)]
 	n := run.Pick(60, 300)
+	if procs < 16 {
+		// every echo is a chain of goroutine hand-offs; with few processors and
+		// dozens of busy goroutines each hand-off waits for its turn, so the
+		// stream is kept shorter there (it is the overlap that matters)
+		n = run.Pick(60, 300) * procs / 16
+		if n < 40 {
+			n = 40
+		}
+	}
 	prog := &svc.Program{}
 	for i := 0; i < n; i++ {
 		prog.Steps = append(prog.Steps, svc.Step{Op: "recv"}, svc.Step{Op: "send", Msg: gen.New(id*1024+512+uint64(i), 200+i%7*300, true)})
@@ -552,6 +566,7 @@ func (s *c13State) duplexStream(id uint64, procs, b int) {
 	st.RequestHeader().Set(wire.CallHeader, call.ID)
 	key := fmt.Sprintf("c13/duplex/%s", c.name)
 	var sendErr error
+	var steps int64 // messages sent + received so far (progress, for the watchdog only)
 	sent := make(chan struct{})
 	go func() {
 		defer close(sent)
@@ -560,12 +575,15 @@ func (s *c13State) duplexStream(id uint64, procs, b int) {
 				sendErr = err
 				return
 			}
+			atomic.AddInt64(&steps, 1)
 		}
 		sendErr = st.CloseRequest()
 	}()
 	var got []*gen.Msg
 	var recvErr error
-	ok, dump := watchdog(120*time.Second, func() {
+	// a window without a single message in either direction is a hang; a stream
+	// that is still moving after 10 more windows is a slow machine (inconclusive)
+	ok, slow, dump := watchdogProgress(120*time.Second, 10, func() int64 { return atomic.LoadInt64(&steps) }, func() {
 		for {
 			m, err := st.Receive()
 			if err != nil {
@@ -575,14 +593,22 @@ func (s *c13State) duplexStream(id uint64, procs, b int) {
 				break
 			}
 			got = append(got, m)
+			atomic.AddInt64(&steps, 1)
 		}
 		<-sent
 		_ = st.CloseResponse()
 	})
 	run.Count("calls", 1)
 	run.Eval(fmt.Sprintf("duplex|%s|procs=%d", c.name, procs))
+	if !ok && slow {
+		run.Inconclusive("a duplex stream was still making progress after 22 minutes (machine too slow to decide)")
+		return
+	}
 	if !ok {
-		run.Violation(key+"/hang", "concurrent send/receive on one bidi stream hung", trunc(dump, 30000))
+		if p := os.Getenv("VERIF_OUT"); p != "" {
+			_ = os.WriteFile(fmt.Sprintf("%s/logs/C13.hang.%d.txt", p, id), []byte(dump), 0o644)
+		}
+		run.Violation(key+"/hang", fmt.Sprintf("concurrent send/receive on one bidi stream hung: no message moved in either direction for 120 s (%d of %d steps done)", atomic.LoadInt64(&steps), 2*n), trunc(dump, 30000))
 		return
 	}
 	run.Count("duplex.messages", int64(len(got)))
